@@ -240,3 +240,181 @@ func isStringBuilding(user ssa.Instruction, v ssa.Value) bool {
 	}
 	return false
 }
+
+// ---- parts form: the same reading, keeping the dynamic pieces as values --------------------------
+
+type sPart struct {
+	lit string
+	dyn ssa.Value // nil for a literal
+}
+
+func (p sPart) isLit() bool { return p.dyn == nil }
+
+func normParts(ps []sPart) []sPart {
+	var out []sPart
+	for _, p := range ps {
+		if p.isLit() {
+			if p.lit == "" {
+				continue
+			}
+			if n := len(out); n > 0 && out[n-1].isLit() {
+				out[n-1].lit += p.lit
+				continue
+			}
+		}
+		out = append(out, p)
+	}
+	return out
+}
+
+func crossParts(a, b [][]sPart) [][]sPart {
+	if len(a)*len(b) > maxStrVariants {
+		return nil
+	}
+	var out [][]sPart
+	for _, x := range a {
+		for _, y := range b {
+			out = append(out, normParts(append(append([]sPart(nil), x...), y...)))
+		}
+	}
+	return out
+}
+
+// strParts: the variants of a string expression as sequences of literal and dynamic parts; nil when the
+// expression is too large to enumerate.
+func strParts(v ssa.Value) [][]sPart {
+	return strPartsRec(v, map[ssa.Value]bool{}, 0)
+}
+
+func stripStringConv(v ssa.Value) ssa.Value {
+	for i := 0; i < 8; i++ {
+		switch x := v.(type) {
+		case *ssa.MakeInterface:
+			v = x.X
+		case *ssa.ChangeType:
+			v = x.X
+		case *ssa.Convert:
+			if isStringType(x.X.Type()) {
+				v = x.X
+			} else {
+				return v
+			}
+		default:
+			return v
+		}
+	}
+	return v
+}
+
+func strPartsRec(v ssa.Value, seen map[ssa.Value]bool, depth int) [][]sPart {
+	leaf := func(x ssa.Value) [][]sPart { return [][]sPart{{{dyn: x}}} }
+	if depth > 24 {
+		return leaf(v)
+	}
+	v = stripStringConv(v)
+	if s, ok := constString(v); ok {
+		return [][]sPart{normParts([]sPart{{lit: s}})}
+	}
+	switch x := v.(type) {
+	case *ssa.BinOp:
+		if x.Op == token.ADD && isStringType(x.Type()) {
+			return crossParts(strPartsRec(x.X, seen, depth+1), strPartsRec(x.Y, seen, depth+1))
+		}
+	case *ssa.Phi:
+		if !isStringType(x.Type()) {
+			return leaf(v)
+		}
+		if seen[x] {
+			return nil
+		}
+		seen[x] = true
+		defer delete(seen, x)
+		var out [][]sPart
+		for _, e := range x.Edges {
+			r := strPartsRec(e, seen, depth+1)
+			out = append(out, r...)
+		}
+		if len(out) == 0 || len(out) > maxStrVariants {
+			return leaf(v)
+		}
+		return out
+	case *ssa.UnOp:
+		if x.Op == token.MUL && isStringType(x.Type()) {
+			if a, ok := x.X.(*ssa.Alloc); ok && !cellStoredInClosures(a) {
+				var out [][]sPart
+				n := 0
+				for _, r := range *a.Referrers() {
+					if st, ok := r.(*ssa.Store); ok && st.Addr == ssa.Value(a) {
+						n++
+						out = append(out, strPartsRec(st.Val, seen, depth+1)...)
+					}
+				}
+				if n > 0 && len(out) > 0 && len(out) <= maxStrVariants {
+					return out
+				}
+			}
+		}
+	case *ssa.Call:
+		switch calleeFullName(x) {
+		case "strconv.Itoa", "strconv.FormatInt", "strconv.FormatUint":
+			return leaf(x.Call.Args[0])
+		case "fmt.Sprintf":
+			format, ok := constString(x.Call.Args[0])
+			if !ok {
+				return leaf(v)
+			}
+			var args []ssa.Value
+			if len(x.Call.Args) > 1 {
+				args = orderedVariadic(x.Call.Args[1])
+			}
+			out := [][]sPart{{}}
+			ai := 0
+			lit := ""
+			flush := func() {
+				if lit != "" {
+					out = crossParts(out, [][]sPart{{{lit: lit}}})
+					lit = ""
+				}
+			}
+			for i := 0; i < len(format); i++ {
+				if format[i] != '%' {
+					lit += string(format[i])
+					continue
+				}
+				if i+1 < len(format) && format[i+1] == '%' {
+					lit += "%"
+					i++
+					continue
+				}
+				j := i + 1
+				for j < len(format) && strings.ContainsRune("+-# 0123456789.", rune(format[j])) {
+					j++
+				}
+				flush()
+				var piece [][]sPart
+				if ai < len(args) {
+					a := stripStringConv(args[ai])
+					if isStringType(a.Type()) {
+						piece = strPartsRec(a, seen, depth+1)
+					} else {
+						piece = leaf(a)
+					}
+				} else {
+					piece = [][]sPart{{{lit: "%!missing"}}}
+				}
+				ai++
+				if piece == nil {
+					return leaf(v)
+				}
+				out = crossParts(out, piece)
+				if out == nil {
+					return leaf(v)
+				}
+				i = j
+			}
+			flush()
+			return out
+		}
+	}
+	return leaf(v)
+}
